@@ -302,6 +302,33 @@ func genWellFormed(r *rand.Rand, idx int, long bool) *streamCase {
 		}
 		return c
 	}
+	defer func() {
+		// half of the streams end in an empty-valued (2-byte) block: the last thing the framer sees before EOF
+		if c.blocks != nil && c.kind != "wf-partial" && r.Intn(2) == 0 {
+			c.stream = append(c.stream, byte(1+r.Intn(250)), 0)
+			c.blocks = append(c.blocks, 2)
+			if c.kind == "wf-1byte" {
+				c.sched = []schedItem{{k: 1, n: len(c.stream)}}
+			} else {
+				c.sched = append(c.sched, schedItem{k: 2, n: 1})
+			}
+		}
+	}()
+	if idx%5 == 4 { // mostly empty-valued blocks, one byte per read, the observation stops at an arbitrary point (pause)
+		c.kind = "wf-tiny-pause"
+		n := 20 + r.Intn(200)
+		for i := 0; i < n; i++ {
+			if r.Intn(4) == 0 {
+				c.stream = append(c.stream, byte(1+r.Intn(250)), 1, byte(r.Intn(256)))
+				c.blocks = append(c.blocks, 3)
+			} else {
+				c.stream = append(c.stream, byte(1+r.Intn(250)), 0)
+				c.blocks = append(c.blocks, 2)
+			}
+		}
+		c.sched = []schedItem{{k: 1, n: 1 + r.Intn(len(c.stream))}, {k: 0, n: 2}}
+		return c
+	}
 	switch idx % 4 {
 	case 0:
 		c.kind = "wf-cuts"
